@@ -22,8 +22,8 @@ THEOREMS = ["C19_global_view_exact", "C19_from_modules_exact", "C19_spanned_exac
             "C19_filter_edges_exact", "C19_first_hop_of_shortest_path", "C19_script_worlds", "C19_module_ids_distinct", "C19_history_exact"]
 QUICK_N = 4000; THOROUGH_N = 150000
 CLAIM = dict(
-    text="Machine-checked (Coq 8.16, axiom-free) for a function-by-function model of topology.rs as it is now (both work lists FIFO): for EVERY gate graph whose chains stay within the supported 16 hops - trees, stars, rings, multi-edges, self-loops, disconnected parts, transit gates anywhere - the global view has one node per module in module order and, per module, exactly one edge per endpoint gate in gate order, labelled with that gate and the far gate of its chain and leading to the node of the far gate's owner (from_modules on any duplicate-free module list: the same, restricted to chains ending inside the list); the view spanned from ANY root terminates, contains exactly the modules reachable from the root, each once, root first, with the same exact edges - proved via the invariant that every index handed to a pending module is its position in nodes++pending; connected() is true iff every node reaches every node (the recursive visit is a DFS whose depth is bounded by the node count); bidirectional() is true iff every edge u->v is answered by an edge v->u; filter_nodes keeps exactly the selected nodes in order and exactly the edges among them, re-indexed to the same modules (so a filtered exact view is the exact view of the kept modules); filter_edges keeps exactly the selected edges; dijkstra never panics for a source that is a node, terminates, and maps every reachable node other than the source to an edge leaving the source that starts a walk no walk undercuts (BFS layering invariant with lazy deletion), and maps neither the source nor unreachable nodes. Refuted by evaluation for the pinned code: LIFO dijkstra on the triangle, LIFO spanned on a root with two neighbours. The model is tied to des by differential runs of the extracted model against the real Sim/Gate/Topology API on generated gate graphs (including chains of 17..22 hops, where the model reproduces the 16-hop cut-off) and by an independent monitor that recomputes node sets, edge multisets, reachability and BFS distances from the wiring the script declares.",
-    note="Trusted: Coq kernel; extraction (ExtrOcamlBasic only) cross-checked in-Coq by vm_compute on a sample each run; the harness and generator bound the tie to the code. The gate layer enters as an abstract view (module = ordered gate list, endpoint = the gate sequence path_iter visits; C08 proves path_iter walks the wired chain). Hypotheses: short (<= 16 hops; only for from_modules) and closed (far ends are gates of modules of the world). Chains beyond 16 hops are outside the quantifier: from_modules then reports a transit gate as the end (recorded in fixes/F13.md, not claimed). bidirectional() tests node pairs, which coincides with the gate-level wording of its documentation on every view and node-filtered view; after filter_edges on multi-edges the two readings differ (Refuted/C19.v, not an observation point of C19). Module identity: the model names a module by its index, the code by its ModuleId (from_modules/spanned look chain ends up by id); that ids of one simulation are pairwise distinct is proved for the wrapping 16-bit counter (C19_module_ids_distinct) and checked on the real ids of every script, with the process-global counter placed at 0xff, mid-range, below 0xff and within a few ids of the 2^16 wrap (a module whose id is ModuleId::NULL = 0 behaves like any other). Node attachments, edge-cost attachments and the dot/svg export are not modelled.",
+    text="Machine-checked (Coq 8.16, axiom-free) for a function-by-function model of topology.rs as it is now (both work lists FIFO): for EVERY gate graph whose chains stay within the supported 16 hops - trees, stars, rings, multi-edges, self-loops, disconnected parts, transit gates anywhere - the global view has one node per module in module order and, per module, exactly one edge per endpoint gate in gate order, labelled with that gate and the far gate of its chain and leading to the node of the far gate's owner (from_modules on any duplicate-free module list: the same, restricted to chains ending inside the list); the view spanned from ANY root terminates, contains exactly the modules reachable from the root, each once, root first, with the same exact edges - proved via the invariant that every index handed to a pending module is its position in nodes++pending; connected() is true iff every node reaches every node (the recursive visit is a DFS whose depth is bounded by the node count); bidirectional() is true iff every edge u->v is answered by an edge v->u; filter_nodes keeps exactly the selected nodes in order and exactly the edges among them, re-indexed to the same modules (so a filtered exact view is the exact view of the kept modules); filter_edges keeps exactly the selected edges; dijkstra never panics for a source that is a node, terminates, and maps every reachable node other than the source to an edge leaving the source that starts a walk no walk undercuts (BFS layering invariant with lazy deletion), and maps neither the source nor unreachable nodes. Histories: a script interleaves queries with wiring operations (connect of existing gates, new gates, at build time and from a module at run time); C19_history_exact shows that every view query of every history returns the exact view of the gate graph built by the operations before it (the graph stays closed, and short when declared chains have at most 16 hops), and the differential runs and the monitor judge each query against the graph of that moment. Refuted by evaluation for the pinned code: LIFO dijkstra on the triangle, LIFO spanned on a root with two neighbours. The model is tied to des by differential runs of the extracted model against the real Sim/Gate/Topology API on generated gate graphs (including chains of 17..22 hops, where the model reproduces the 16-hop cut-off) and by an independent monitor that recomputes node sets, edge multisets, reachability and BFS distances from the wiring the script declares.",
+    note="Trusted: Coq kernel; extraction (ExtrOcamlBasic only) cross-checked in-Coq by vm_compute on a sample each run; the harness and generator bound the tie to the code. The gate layer enters as an abstract view (module = ordered gate list, endpoint = the gate sequence path_iter visits; C08 proves path_iter walks the wired chain). Hypotheses: short (<= 16 hops; only for from_modules) and closed (far ends are gates of modules of the world). Chains beyond 16 hops are outside the quantifier: from_modules then reports a transit gate as the end (recorded in fixes/F13.md, not claimed). bidirectional() tests node pairs, which coincides with the gate-level wording of its documentation on every view and node-filtered view; after filter_edges on multi-edges the two readings differ (Refuted/C19.v, not an observation point of C19). Module identity: the model names a module by its index, the code by its ModuleId (from_modules/spanned look chain ends up by id); that ids of one simulation are pairwise distinct is proved for the wrapping 16-bit counter (C19_module_ids_distinct) and checked on the real ids of every script, with the process-global counter placed at 0xff, mid-range, below 0xff and within a few ids of the 2^16 wrap (a module whose id is ModuleId::NULL = 0 behaves like any other). A Topology object is a value: it does not follow later changes of the gate graph (derived queries answer for the snapshot). des has no public disconnect (Gate::dissolve_paths is crate-private and only runs when a module is dropped), so gate graphs only grow within a simulation; modules are not added after the first query. Every runner process builds and queries about a thousand simulations back to back, so state surviving from one simulation to the next in a static would show up as well. Node attachments, edge-cost attachments and the dot/svg export are not modelled.",
     technique="Coq proofs over an executable model (loop invariants: index prediction for spanned, DFS closure for connected, BFS layering for dijkstra) + differential correspondence check + property monitor",
     design="6/C19")
 RULE = ("scripts declare 1..14 modules with gates in shuffled creation order and wire trees, stars, rings, multi-edges, self-loops,"
